@@ -492,6 +492,19 @@ def worker_main():
                         ids.append(nxt)
                         nxt += 1
                 res["path"] = [list(p) for p in path]
+            elif kind == "init":
+                cp = pb.ContractionProcessor(inputs, output, sd)
+                res["nodes"] = [[i, [list(x) for x in lg]] for i, lg in cp.nodes.items()]
+                res["edges"] = [[ix, list(d)] for ix, d in cp.edges.items()]
+                res["app"] = list(cp.appearances)
+                res["sizes"] = list(cp.sizes)
+                res["ssa"] = cp.ssa
+                res["groups"] = [list(g) for g in cp.subgraphs()]
+                before = (dict(cp.nodes), {k: list(v) for k, v in cp.edges.items()}, cp.ssa)
+                cp.simplify()
+                after = (dict(cp.nodes), {k: list(v) for k, v in cp.edges.items()}, cp.ssa)
+                res["simplify_noop"] = bool(before == after and not cp.ssa_path)
+                res["groups_after"] = [list(g) for g in cp.subgraphs()]
             elif kind == "parse":
                 from cotengra.scoring import get_score_fn
                 s = get_score_fn(job["minimize"]).get_dynamic_programming_minimize()
@@ -639,6 +652,16 @@ def run(ctx):
                      "inputs": [list(t) for t in inputs], "output": list(output), "size_dict": sd,
                      "minimize": OBJECTIVES[oi][0], "cap": 2, "search_outer": True, "oi": oi,
                      "entry": "function", "timeout": 60})
+    # K3: the processor state built by __init__, subgraphs() and simplify()
+    init_nets = [(net, True) for net in nets]
+    for c in range(max(5, int(ctx.n(60, 600) * scale))):
+        net = gen.rand_net(rng, nmin=2, nmax=7)
+        if any(ix not in {a for t in net[0] for a in t} for ix in net[1]):
+            continue
+        init_nets.append((net, False))
+    for k, ((inputs, output, sd), _) in enumerate(init_nets):
+        jobs.append({"id": "init%d" % k, "kind": "init", "inputs": [list(t) for t in inputs],
+                     "output": list(output), "size_dict": sd, "timeout": 20})
     # regression corpus (runs every time): objective strings that must survive the round trip
     # scorer -> get_dynamic_programming_minimize() -> parse_minimize_for_optimal
     parse_ids = []
@@ -779,6 +802,12 @@ def run(ctx):
         rhs = "(Some (%s, %s))" % (coq(Z(got)), pl)
         cases.append((job["id"], lhs, rhs))
         recs.append(rec)
+        if job["cap"] == 2:
+            # the model of the public entry point (init ; simplify ; subgraphs ; DP ; replay)
+            lhsf = "optimize_optimal_full nil %s %s %s %d%%nat (%d)%%Z" % (netl, cobj, coq(bool(so)), FUEL, job["cap"])
+            rhsf = "(Some (%s, %s))" % (coq(Z(got)), coq([[int(a), int(b)] for a, b in path]))
+            cases.append((job["id"] + "_full", lhsf, rhsf))
+            recs.append(dict(rec, what="optimize_optimal_full (model of the public entry point)"))
         # ---- Coq spec on the returned tree, and the enumerated optimum inside Coq
         key = (c, job["oi"], so)
         if key not in seen_net_model:
@@ -801,7 +830,7 @@ def run(ctx):
                 cases.append((job["id"] + "_brute", lhs3, rhs3))
                 recs.append(dict(rec, what="Coq enumerated minimum over all_trees"))
                 ctx.count("coq_brute_min_n%d" % n)
-    failing = ctx.coq_cases("c09_e2e", ["Optimal"], cases, chunk=16, timeout=1500)
+    failing = ctx.coq_cases("c09_e2e", ["OptimalProc"], cases, chunk=16, timeout=1500)
     for idx, label, val in failing[:3]:
         rec = dict(recs[idx]) if idx < len(recs) else {}
         rec["model_value"] = val
@@ -811,6 +840,51 @@ def run(ctx):
         ctx.fail("model and implementation disagree (optimum, path, spec score or enumerated minimum)",
                  rec, found_input=False)
     ctx.log("K2 done: %d cases, %d failing (%.1fs)" % (len(cases), len(failing), time.time() - t0))
+
+    # ------------------------------------------------------------------ K3
+    cases, recs = [], []
+    for k, ((inputs, output, sd), is_pre) in enumerate(init_nets):
+        r = results["init%d" % k]
+        rec = {"inputs": inputs, "output": output, "size_dict": sd, "precondition": is_pre}
+        if r.get("skipped"):
+            continue
+        if r.get("error"):
+            if is_pre:
+                ctx.fail("ContractionProcessor init/simplify/subgraphs failed on a precondition network: %s"
+                         % r["error"], rec)
+            else:
+                ctx.count("init_impl_error_on_perverse_net")
+            continue
+        n = len(inputs)
+        pre_text = precondition(inputs, output, sd)
+        if is_pre and not (r["simplify_noop"] and r["groups"] == [list(range(n))] == r["groups_after"]):
+            # proved for the model (C09_simplify_is_noop, C09_subgraphs_is_single_component): the code differs
+            ctx.fail("simplify() changed a precondition network or subgraphs() is not the single full component",
+                     dict(rec, impl=r), found_input=False)
+        netl = gen.net_lit(inputs, output, sd)
+        lhs = ("let c := cp_of (proc_init %s) in (cp_nodes c, (cp_edges c, (cp_app c, (cp_sizes c, "
+               "(cp_ssa c, (cp_subgraphs c, pre_b %s))))))" % (netl, netl))
+        rhs = coq(([(int(i), [(int(a), int(b)) for a, b in lg]) for i, lg in r["nodes"]],
+                   [(int(ix), [int(x) for x in ns]) for ix, ns in r["edges"]],
+                   [int(a) for a in r["app"]], [Z(x) for x in r["sizes"]], int(r["ssa"]),
+                   [[int(x) for x in g] for g in r["groups"]], bool(pre_text)))
+        # empty lists need a type annotation
+        rhs = rhs.replace("[]", "nil")
+        cases.append(("init%d" % k, lhs, rhs))
+        recs.append(dict(rec, impl=r))
+        ctx.count("K3_pre_b_true" if pre_text else "K3_pre_b_false")
+        if len(r["groups"]) > 1:
+            ctx.count("K3_several_components")
+    failing = ctx.coq_cases("c09_init", ["OptimalProc"], cases, chunk=40, timeout=900)
+    for idx, label, val in failing[:3]:
+        rec = dict(recs[idx]) if idx < len(recs) else {}
+        rec["model_value"] = val
+        rec["correspondence"] = ("Model/OptimalProc.v cp_of (proc_init net) / cp_subgraphs / pre_b vs "
+                                 "ContractionProcessor.__init__ (nodes, edges, appearances, sizes, ssa), "
+                                 "subgraphs(), and the text-level precondition")
+        ctx.fail("model and implementation disagree on the initial processor state, subgraphs() or the precondition",
+                 rec, found_input=False)
+    ctx.log("K3 done: %d cases, %d failing (%.1fs)" % (len(cases), len(failing), time.time() - t0))
 
     # ------------------------------------------------------------------ K1
     cases, recs = [], []
